@@ -311,6 +311,34 @@ func (s *Session) Judge(t TB, c any, f *Failure) {
 	t.Fatalf("%s", f.String())
 }
 
+// Report is Judge for checks that collect several independent findings in one run (e.g. race pairs):
+// a failure accounted for by a known finding is counted; anything else is written as its own replay
+// file and listed as a violation; the run goes on.
+func (s *Session) Report(c any, f *Failure) {
+	if f == nil {
+		return
+	}
+	if k := s.matchKnown(f); k != nil {
+		s.mu.Lock()
+		s.knownHits[k.ID]++
+		s.mu.Unlock()
+		return
+	}
+	dir := envOr("VERIF_REPLAYS", filepath.Join(s.Root, "replays"))
+	os.MkdirAll(dir, 0o755)
+	s.mu.Lock()
+	n := len(s.violations)
+	s.mu.Unlock()
+	name := filepath.Join(dir, fmt.Sprintf("%s-%s-%d-%s%d-%d.json", s.Prop, s.Tier, s.Seed, s.Phase, s.Shard, n))
+	b, _ := json.MarshalIndent(CorpusFile{Property: s.Prop, Expect: "pass", Note: "found by phase " + s.Phase, Case: mustJSON(c), Failure: f}, "", " ")
+	os.WriteFile(name, b, 0o644)
+	rel := name
+	if r, err := filepath.Rel(s.Root, name); err == nil && !strings.HasPrefix(r, "..") {
+		rel = r
+	}
+	s.addViolation(rel, f)
+}
+
 // Inconclusive marks the process result as infrastructure trouble (driver exit 2).
 func (s *Session) Inconclusive(msg string) {
 	s.mu.Lock()
